@@ -203,6 +203,7 @@ def run(tier, seed):
                           'notation + families + 12 generated ones at random argument tuples; distinct = distinct request; '
                           'all are non-trivial (each exercises match_single)')
     return R.finish(level='proof', trusted_base=C.TRUSTED_COMMON + [
+        'translators/pypattern.py (Python ast -> coq/Gen/PyPattern.v, fail closed; dynamic dispatch = generated recursive call)',
         'harness/impl/pat_runner.py + harness/pycodec.py (term codec), harness/pygen.py reference expansion and '
         'first-order matcher (oracle only)',
         'frozendict/dict keys are unique and iterate in insertion order (modelled as association lists); '
